@@ -3,6 +3,7 @@ package props
 import (
 	"fmt"
 	"sort"
+	"strconv"
 	"strings"
 	"testing"
 
@@ -193,6 +194,37 @@ func c18Gen(t *rapid.T) C18Case {
 		`count_over_time({}[2s]) + count_over_time({}[2s])`,
 		`sum by (tier, env) (count_over_time({}[5s])) or sum by (tier, env) (count_over_time({tier="web"}[5s]))`,
 	}).Draw(t, "query")
+	// A generated nesting of integer-valued aggregations whose grouping clauses name the same
+	// few labels in any order of by / without: the label sets of the answer must not depend on
+	// which member of a group the runtime happens to visit first.
+	if rapid.IntRange(0, 2).Draw(t, "generated-nesting") == 0 {
+		pool := []string{"container", "tier", "env", "msg"}
+		grouping := func(label string) string {
+			var ls []string
+			for _, l := range pool {
+				if rapid.IntRange(0, 2).Draw(t, label+"-"+l) == 0 {
+					ls = append(ls, l)
+				}
+			}
+			kw := "by"
+			if rapid.Bool().Draw(t, label+"-without") {
+				kw = "without"
+				ls = append(ls, rapid.SampledFrom([]string{"container_id", "container_name", "msg"}).Draw(t, label+"-wo-extra"))
+			}
+			return kw + " (" + strings.Join(ls, ", ") + ")"
+		}
+		q := rapid.SampledFrom([]string{`count_over_time({}[5s])`, `bytes_over_time({}[3s])`, `count_over_time({} | drop msg [5s])`,
+			`max_over_time({} | pattern "<method> <path> <code>" | unwrap code [5s]) ` + grouping("g0")}).Draw(t, "gn-range")
+		depth := rapid.IntRange(1, 3).Draw(t, "gn-depth")
+		for i := 0; i < depth; i++ {
+			op := rapid.SampledFrom([]string{"sum", "max", "min", "count"}).Draw(t, "gn-op")
+			q = op + " " + grouping("g"+strconv.Itoa(i+1)) + " (" + q + ")"
+		}
+		if rapid.IntRange(0, 3).Draw(t, "gn-topk") == 0 {
+			q = "topk " + grouping("gt") + " (" + strconv.Itoa(rapid.IntRange(1, 3).Draw(t, "gn-k")) + ", " + q + ")"
+		}
+		c.Query = q
+	}
 	c.Waves = []int{n}
 	switch {
 	case strings.HasPrefix(c.Query, `{tier="web"}`):
